@@ -80,7 +80,7 @@ def run(ctx):
             ctx.ob("C18.G.error-names-expectation", f.key, "expected = self", ctx.expr(f, t["args"][1]) == "self" and "Shape::description(" in ctx.expr(f, t["args"][0]), "%s" % [ctx.expr(f, a)[:80] for a in t["args"]])
     f = ctx.fn(U + "ShapeSet::contains")
     if f:
-        rs = [e for _, e in ctx.ret_exprs(f)]
+        rs = ctx.ret_values(f)
         ctx.ob("C18.G.contains-same-verdict", f.key, "contains_shape(fields.as_shape())", len(rs) == 1 and re.match(r"^darling_core::util::shape::ShapeSet::contains_shape\(self, .*as_shape\(a2\)\)$", rs[0]) is not None, "%s" % rs)
     f = ctx.fn(U + "ShapeSet::is_empty")
     if f:
@@ -160,7 +160,7 @@ def run(ctx):
         ctx.ob("C18.G.any-word", f.key, "`any` sets any", ok, "%d" % len(anys))
     f = ctx.fn("<darling_core::options::shape::DeriveInputShapeSet as core::default::Default>::default")
     if f:
-        rs = [e for _, e in ctx.ret_exprs(f)]
+        rs = ctx.ret_values(f)
         ok = len(rs) == 1 and 'enum_values: ' not in rs[0] and re.search(r'DataShape::new\("enum_"\), .*DataShape::new\("struct_"\)', rs[0]) is not None
         ctx.ob("C18.G.prefixes", f.key, "enum_values: new(\"enum_\"), struct_values: new(\"struct_\")", ok, "%s" % [r[:200] for r in rs])
     # DataShape::to_tokens: each Shape token under any ∨ own flag
@@ -220,7 +220,7 @@ def run(ctx):
                 sv = s2
         if not sv:
             # `any`: body is Ok(())
-            rs = [e for _, e in ctx.ret_exprs(b)]
+            rs = ctx.ret_values(b)
             ctx.ob("C18.B.any-body", "<derived receiver>::__validate_body", "Ok(())", rs == ["core::result::Result::Ok{tuple{}}"], "%s in %s" % (rs, b.key))
             continue
         adt, allv, m, other, r = sv
